@@ -343,6 +343,9 @@ fn burst_families(out: &mut Vec<Spec>) {
     out.push(Spec { scn: Scn::Ps(ps(&[70], 2, "pf", false, true, false)), bound: 1 });
     out.push(Spec { scn: Scn::Rr(rr("burst", vec![plain(70)], vec![vec![]], "rf", vec![0], false, false, false, false, "C02")), bound: 1 });
     out.push(Spec { scn: Scn::Rr(rr("burst2", vec![plain(34), plain(34)], vec![vec![]], "qf", vec![1, 0], false, false, false, false, "C02")), bound: 1 });
+    // beyond any per-poll budget of a few hundred rounds
+    out.push(Spec { scn: Scn::Rr(rr("burst3", vec![plain(300)], vec![vec![]], "rf", vec![0], false, false, false, false, "C02")), bound: 1 });
+    out.push(Spec { scn: Scn::Ps(ps(&[600], 1, "sf", false, false, false)), bound: 1 });
 }
 
 fn one_sided(bound: usize, out: &mut Vec<Spec>) {
